@@ -399,18 +399,25 @@ def run_arith(ctx, judge, hosts_per_bits, oracle=True):
         maskobj = ipaddress.ip_network(f"0.0.0.0/{b}").netmask
         mask = int(maskobj)
         case = {"kind": "arith", "bits": b}
-        nc = m["netconfig"].VMNetconfig()
-        nc.netmask = str(maskobj)
-        got = nc.mask_bit
+        try:
+            nc = m["netconfig"].VMNetconfig()
+            nc.netmask = str(maskobj)
+            got = nc.mask_bit
+            nc2 = m["netconfig"].VMNetconfig()
+            nc2.net_ip = "0.0.0.0"
+            nc2.mask_bit = str(b)
+            back = (nc2.netmask, nc2.mask_bit)
+        except Exception as e:
+            if oracle:
+                judge.violate("maskbit-raises", f"mask_bit for /{b} ({maskobj}): {e!r}", case)
+            add(f"maskbit {mask}", "error:" + type(e).__name__, case, "maskbit")
+            continue
         add(f"maskbit {mask}", got, case, "maskbit")
         if oracle and got != str(b):
             judge.violate("maskbit-wrong", f"netmask {maskobj} -> mask_bit {got}, prefix length is {b}", case)
-        nc2 = m["netconfig"].VMNetconfig()
-        nc2.net_ip = "0.0.0.0"
-        nc2.mask_bit = str(b)
-        add(f"netmask {b}", str(int(ipaddress.IPv4Address(nc2.netmask))), case, "netmask")
-        if oracle and (nc2.netmask != str(maskobj) or nc2.mask_bit != str(b)):
-            judge.violate("netmask-maskbit-roundtrip", f"mask_bit={b} -> netmask {nc2.netmask} -> mask_bit {nc2.mask_bit}", case)
+        add(f"netmask {b}", str(int(ipaddress.IPv4Address(back[0]))), case, "netmask")
+        if oracle and back != (str(maskobj), str(b)):
+            judge.violate("netmask-maskbit-roundtrip", f"mask_bit={b} -> netmask {back[0]} -> mask_bit {back[1]}", case)
         ctx.count("arith.prefix-lengths")
         size = 1 << (32 - b)
         for _ in range(hosts_per_bits):
